@@ -1,1 +1,435 @@
-fn main() {}
+//! C18 Typed event (de)serialization dispatches by type and is a stable fixpoint.
+use std::collections::BTreeMap;
+
+use proptest::prelude::*;
+use ruma_common::serde::Raw;
+use ruma_events::{
+    AnyEphemeralRoomEvent, AnyEphemeralRoomEventContent, AnyGlobalAccountDataEvent, AnyGlobalAccountDataEventContent, AnyMessageLikeEvent, AnyMessageLikeEventContent, AnyRoomAccountDataEvent,
+    AnyRoomAccountDataEventContent, AnyStateEvent, AnyStateEventContent, AnyStrippedStateEvent, AnySyncEphemeralRoomEvent, AnySyncTimelineEvent, AnyTimelineEvent, AnyToDeviceEvent, AnyToDeviceEventContent,
+    EventContentFromType,
+};
+use serde::{Deserialize, Serialize};
+use serde_json::{json, value::RawValue, Map, Value};
+use vf_engine::{CaseCtx, Check};
+
+mod schema;
+use schema::{schemas, Kind, Schema, G};
+
+#[derive(Serialize, Deserialize, Debug, Clone)]
+pub struct EvCase {
+    /// index into the schema table; `unknown_type` overrides the type (custom variant)
+    pub schema: u16,
+    pub unknown_type: Option<String>,
+    pub choices: Vec<u8>,
+    /// 0 full, 1 sync, 2 stripped (state only)
+    pub format: u8,
+    /// Some(v): redacted form under room version v (1..=11)
+    pub redacted_version: Option<u8>,
+    pub unsigned_bits: u8,
+    pub salt: u8,
+}
+
+/// JSON text with object keys written in a salt-dependent order.
+fn permuted_text(v: &Value, salt: u8) -> String {
+    match v {
+        Value::Object(m) => {
+            let mut keys: Vec<&String> = m.keys().collect();
+            if salt % 3 == 1 {
+                keys.reverse();
+            } else if salt % 3 == 2 && !keys.is_empty() {
+                let r = (salt as usize / 3) % keys.len();
+                keys.rotate_left(r);
+            }
+            let parts: Vec<String> = keys.iter().map(|k| format!("{}:{}", serde_json::to_string(k).unwrap(), permuted_text(&m[*k], salt.wrapping_add(1)))).collect();
+            format!("{{{}}}", parts.join(","))
+        }
+        Value::Array(a) => format!("[{}]", a.iter().map(|x| permuted_text(x, salt)).collect::<Vec<_>>().join(",")),
+        other => serde_json::to_string(other).unwrap(),
+    }
+}
+
+/// Duplicate-rejecting JSON reader (serde_json silently keeps the last duplicate).
+fn has_duplicate_keys(text: &str) -> bool {
+    use serde::de::{DeserializeSeed, Deserializer, MapAccess, SeqAccess, Visitor};
+    struct Dup<'a>(&'a std::cell::Cell<bool>);
+    impl<'de, 'a> DeserializeSeed<'de> for Dup<'a> {
+        type Value = ();
+        fn deserialize<D: Deserializer<'de>>(self, d: D) -> Result<(), D::Error> {
+            d.deserialize_any(self)
+        }
+    }
+    impl<'de, 'a> Visitor<'de> for Dup<'a> {
+        type Value = ();
+        fn expecting(&self, f: &mut std::fmt::Formatter<'_>) -> std::fmt::Result {
+            f.write_str("any JSON")
+        }
+        fn visit_bool<E>(self, _: bool) -> Result<(), E> {
+            Ok(())
+        }
+        fn visit_i64<E>(self, _: i64) -> Result<(), E> {
+            Ok(())
+        }
+        fn visit_u64<E>(self, _: u64) -> Result<(), E> {
+            Ok(())
+        }
+        fn visit_f64<E>(self, _: f64) -> Result<(), E> {
+            Ok(())
+        }
+        fn visit_str<E>(self, _: &str) -> Result<(), E> {
+            Ok(())
+        }
+        fn visit_unit<E>(self) -> Result<(), E> {
+            Ok(())
+        }
+        fn visit_seq<A: SeqAccess<'de>>(self, mut a: A) -> Result<(), A::Error> {
+            while a.next_element_seed(Dup(self.0))?.is_some() {}
+            Ok(())
+        }
+        fn visit_map<A: MapAccess<'de>>(self, mut a: A) -> Result<(), A::Error> {
+            let mut seen = std::collections::BTreeSet::new();
+            while let Some(k) = a.next_key::<String>()? {
+                if !seen.insert(k) {
+                    self.0.set(true);
+                }
+                a.next_value_seed(Dup(self.0))?;
+            }
+            Ok(())
+        }
+    }
+    let flag = std::cell::Cell::new(false);
+    let mut de = serde_json::Deserializer::from_str(text);
+    let _ = Dup(&flag).deserialize(&mut de);
+    flag.get()
+}
+
+fn leaves(v: &Value, path: String, out: &mut BTreeMap<String, Value>) {
+    match v {
+        Value::Object(m) => {
+            for (k, x) in m {
+                leaves(x, format!("{path}/{k}"), out);
+            }
+        }
+        Value::Array(a) => {
+            for (i, x) in a.iter().enumerate() {
+                leaves(x, format!("{path}#{i}"), out);
+            }
+        }
+        leaf => {
+            out.insert(path, leaf.clone());
+        }
+    }
+}
+
+fn strip_unknown(v: &Value) -> Value {
+    match v {
+        Value::Object(m) => Value::Object(m.iter().filter(|(k, _)| *k != "org.example.unknown").map(|(k, x)| (k.clone(), strip_unknown(x))).collect()),
+        Value::Array(a) => Value::Array(a.iter().map(strip_unknown).collect()),
+        x => x.clone(),
+    }
+}
+
+fn redaction_event() -> Value {
+    json!({"type": "m.room.redaction", "content": {"reason": "spam"}, "redacts": "$ev1:s.example", "event_id": "$redaction:s.example", "sender": "@mod:s.example", "origin_server_ts": 99, "room_id": "!room:s.example"})
+}
+
+/// Fixpoint check of a content enum; returns s1.
+fn content_fixpoint<C: EventContentFromType + Serialize>(ty: &str, content: &Value, salt: u8, cx: &mut CaseCtx) -> Result<String, String> {
+    if !schemas().iter().any(|s| s.ty == ty) {
+        // content of unknown types deserialises to the custom variant, which keeps only the type
+        // and is documented as not serialisable (custom events are sent as Raw): totality only
+        let raw = RawValue::from_string(permuted_text(content, 0)).map_err(|e| e.to_string())?;
+        C::from_parts(ty, &raw).map_err(|e| format!("content of unknown type {ty} does not deserialise into the custom variant: {e}"))?;
+        cx.class("custom_content_not_serialisable_by_design");
+        return Ok(String::new());
+    }
+    let raw = |v: &Value, salt: u8| RawValue::from_string(permuted_text(v, salt)).map_err(|e| e.to_string());
+    let c1 = C::from_parts(ty, &raw(content, 0)?).map_err(|e| format!("content of type {ty} shaped as the specification describes does not deserialise: {e}; content {content}"))?;
+    let s1 = serde_json::to_string(&c1).map_err(|e| format!("serialising typed content failed: {e}"))?;
+    if has_duplicate_keys(&s1) {
+        if ty == "m.room.message" && content.get("msgtype").and_then(|m| m.as_str()).is_some_and(|m| !m.starts_with("m.")) && cx.known_finding("custom_msgtype_duplicate_keys", json!({"content": content, "serialised": s1})) {
+            return Ok(s1);
+        }
+        return Err(format!("serialised content of type {ty} contains duplicate keys: {s1}"));
+    }
+    let back: Value = serde_json::from_str(&s1).map_err(|e| format!("serialised content is not valid JSON: {e}: {s1}"))?;
+    let c2 = C::from_parts(ty, &RawValue::from_string(s1.clone()).map_err(|e| e.to_string())?).map_err(|e| format!("re-deserialising serialised content of type {ty} failed: {e}; {s1}"))?;
+    let s2 = serde_json::to_string(&c2).map_err(|e| e.to_string())?;
+    if s2 != s1 {
+        return Err(format!("serialise -> deserialise -> serialise is not a fixpoint for {ty}: {s1} then {s2}"));
+    }
+    // no value that was present is changed
+    let (mut a, mut b) = (BTreeMap::new(), BTreeMap::new());
+    leaves(content, String::new(), &mut a);
+    leaves(&back, String::new(), &mut b);
+    for (p, v) in &a {
+        if let Some(w) = b.get(p) {
+            let same_number = matches!((v.as_f64(), w.as_f64()), (Some(x), Some(y)) if x == y);
+            if v != w && !same_number {
+                return Err(format!("content of type {ty}: value at {p} changed from {v} to {w} (input {content}, output {s1})"));
+            }
+        }
+    }
+    // key order and unknown extra fields do not matter
+    let c3 = C::from_parts(ty, &raw(content, salt | 1)?).map_err(|e| format!("key-permuted content fails: {e}"))?;
+    if serde_json::to_string(&c3).ok().as_deref() != Some(&s1) {
+        return Err(format!("serialised content of type {ty} depends on the input's key order"));
+    }
+    let stripped = strip_unknown(content);
+    if stripped != *content {
+        let c4 = C::from_parts(ty, &raw(&stripped, 0)?).map_err(|e| format!("content without the unknown fields fails: {e}"))?;
+        let s4 = serde_json::to_string(&c4).unwrap_or_default();
+        let without_unknown = serde_json::to_string(&strip_unknown(&back)).unwrap_or_default();
+        let s4v: Value = serde_json::from_str(&s4).unwrap_or(Value::Null);
+        if serde_json::to_string(&strip_unknown(&s4v)).unwrap_or_default() != without_unknown {
+            return Err(format!("unknown extra fields change the known part of the serialised content of type {ty}: {s1} vs {s4}"));
+        }
+        cx.class("unknown_fields_present");
+    }
+    Ok(s1)
+}
+
+fn oracle_with(table: &[Schema], c: &EvCase, cx: &mut CaseCtx) -> Result<(), String> {
+    let sch = &table[c.schema as usize % table.len()];
+    let ty: String = c.unknown_type.clone().unwrap_or_else(|| sch.ty.to_owned());
+    let custom = c.unknown_type.is_some();
+    let mut g = G::new(&c.choices);
+    let mut content = (sch.gen)(&mut g);
+    let kind = sch.kind;
+    let redacted = c.redacted_version.filter(|_| matches!(kind, Kind::State | Kind::MessageLike) && c.format != 2);
+    if let Some(v) = redacted {
+        let cv = vf_ref::cjson::V::from_serde(&content).ok_or("harness: content not canonical")?;
+        let (red, _, _) = vf_ref::redact::redact_content(v, &ty, cv.obj().ok_or("content not an object")?);
+        content = vf_ref::cjson::V::Obj(red).to_serde();
+    }
+    // the event object
+    let mut ev = Map::new();
+    ev.insert("type".into(), json!(ty));
+    ev.insert("content".into(), content.clone());
+    let sender = "@alice:s.example";
+    let mut unsigned = Map::new();
+    match kind {
+        Kind::State | Kind::MessageLike => {
+            ev.insert("sender".into(), json!(sender));
+            if c.format != 2 {
+                ev.insert("event_id".into(), json!("$ev1:s.example"));
+                ev.insert("origin_server_ts".into(), json!(1_600_000_000_123u64));
+                if c.format == 0 {
+                    ev.insert("room_id".into(), json!("!room:s.example"));
+                }
+                if c.unsigned_bits & 1 == 1 {
+                    unsigned.insert("age".into(), json!(1234));
+                }
+                if c.unsigned_bits & 2 == 2 {
+                    unsigned.insert("transaction_id".into(), json!("txn1"));
+                }
+                if c.unsigned_bits & 4 == 4 && kind == Kind::State && redacted.is_none() {
+                    unsigned.insert("prev_content".into(), content.clone());
+                }
+                if c.unsigned_bits & 8 == 8 {
+                    unsigned.insert("org.example.unknown".into(), json!({"x": 1}));
+                }
+                if redacted.is_some() {
+                    unsigned.insert("redacted_because".into(), redaction_event());
+                }
+                if !unsigned.is_empty() {
+                    ev.insert("unsigned".into(), Value::Object(unsigned.clone()));
+                }
+            }
+            if kind == Kind::State {
+                let sk = if ty == "m.room.member" || ty == "m.policy.rule.user" { "@bob:t.example:8448" } else if ty.starts_with("m.space") { "!child:s.example" } else if ty == "m.room.third_party_invite" { "token" } else if ty == "m.room.aliases" { "s.example" } else { "" };
+                ev.insert("state_key".into(), json!(sk));
+            }
+            // `redacts` lives at the top level (room versions 1-10) and/or in the content (v11)
+            if ty == "m.room.redaction" && (c.unsigned_bits & 16 == 16 || content.get("redacts").is_none()) {
+                ev.insert("redacts".into(), json!("$target:s.example"));
+            }
+        }
+        Kind::ToDevice => {
+            ev.insert("sender".into(), json!(sender));
+        }
+        Kind::Ephemeral if c.format == 0 => {
+            ev.insert("room_id".into(), json!("!room:s.example"));
+        }
+        _ => {}
+    }
+    if c.unsigned_bits & 32 == 32 {
+        ev.insert("org.example.unknown_top".into(), json!([1, {"a": null}]));
+    }
+    let evv = Value::Object(ev);
+    let text = permuted_text(&evv, c.salt);
+    cx.class(match kind {
+        Kind::State => "state",
+        Kind::MessageLike => "message_like",
+        Kind::Ephemeral => "ephemeral",
+        Kind::GlobalAccountData => "global_account_data",
+        Kind::RoomAccountData => "room_account_data",
+        Kind::ToDevice => "to_device",
+    });
+    cx.class_if(custom, "unknown_type");
+    cx.class_if(redacted.is_some(), "redacted_form");
+    cx.class_if(content.get("m.relates_to").is_some(), "relation");
+    // ---- Raw wrapper -------------------------------------------------------------------------
+    let raw: Raw<Value> = Raw::from_json_string(text.clone()).map_err(|e| format!("Raw::from_json_string rejected valid JSON: {e}"))?;
+    if raw.json().get() != text {
+        return Err("Raw does not return the original text byte for byte".into());
+    }
+    if let Value::Object(m) = &evv {
+        for k in m.keys().map(String::as_str).chain(["missing_key", "conten"]) {
+            let got: Option<Value> = raw.get_field(k).map_err(|e| format!("Raw::get_field({k:?}) failed: {e}"))?;
+            if got.as_ref() != m.get(k) {
+                return Err(format!("Raw::get_field({k:?}) = {got:?}, a full parse gives {:?}", m.get(k)));
+            }
+        }
+    }
+    // ---- typed deserialisation ------------------------------------------------------------------
+    let expect_type = |got: String| -> Result<(), String> {
+        let want = if ty == "org.matrix.call.sdp_stream_metadata_changed" { "m.call.sdp_stream_metadata_changed".to_owned() } else { ty.clone() };
+        if got != want {
+            return Err(format!("event_type() is {got:?}, the JSON type is {ty:?}"));
+        }
+        Ok(())
+    };
+    let ctx_err = |e: serde_json::Error, what: &str| format!("{what} failed on an event shaped as the specification describes: {e}; event {text}");
+    match kind {
+        Kind::State | Kind::MessageLike => {
+            if c.format == 2 {
+                if kind == Kind::State {
+                    let s: AnyStrippedStateEvent = serde_json::from_str(&text).map_err(|e| ctx_err(e, "AnyStrippedStateEvent"))?;
+                    expect_type(s.event_type().to_string())?;
+                    if s.sender() != sender || s.state_key() != evv["state_key"].as_str().unwrap_or("") {
+                        return Err("stripped state event accessors differ from the JSON".into());
+                    }
+                }
+            } else if c.format == 0 {
+                let t: AnyTimelineEvent = serde_json::from_str(&text).map_err(|e| ctx_err(e, "AnyTimelineEvent"))?;
+                expect_type(t.event_type().to_string())?;
+                if t.sender() != sender || t.event_id() != "$ev1:s.example" || u64::from(t.origin_server_ts().0) != 1_600_000_000_123 || t.room_id() != "!room:s.example" {
+                    return Err(format!("AnyTimelineEvent accessors differ from the JSON: {:?} {:?} {:?} {:?}", t.sender(), t.event_id(), t.origin_server_ts(), t.room_id()));
+                }
+                // (redacted events keep only `redacted_because` of `unsigned`: not asserted there)
+                if redacted.is_none() && t.transaction_id().map(|x| x.as_str()) != unsigned.get("transaction_id").and_then(|x| x.as_str()) {
+                    return Err("transaction_id() differs from unsigned.transaction_id".into());
+                }
+                match (&t, kind) {
+                    (AnyTimelineEvent::State(s), Kind::State) => {
+                        if s.is_redacted() != redacted.is_some() {
+                            return Err(format!("state event with{} unsigned.redacted_because is reported as is_redacted = {}", if redacted.is_some() { "" } else { "out" }, s.is_redacted()));
+                        }
+                        if s.state_key() != evv["state_key"].as_str().unwrap_or("") {
+                            return Err("state_key() differs from the JSON".into());
+                        }
+                        if s.original_content().is_some() == redacted.is_some() {
+                            return Err("original_content() presence disagrees with redaction status".into());
+                        }
+                    }
+                    (AnyTimelineEvent::MessageLike(m), Kind::MessageLike) => {
+                        if m.is_redacted() != redacted.is_some() || m.original_content().is_some() == redacted.is_some() {
+                            return Err(format!("message-like event: redacted_because present = {}, is_redacted() = {}", redacted.is_some(), m.is_redacted()));
+                        }
+                    }
+                    _ => return Err(format!("event of type {ty} with{} state_key was put in the wrong half of AnyTimelineEvent", if kind == Kind::State { "" } else { "out" })),
+                }
+                // the specific enums agree
+                if kind == Kind::State {
+                    let s: AnyStateEvent = serde_json::from_str(&text).map_err(|e| ctx_err(e, "AnyStateEvent"))?;
+                    expect_type(s.event_type().to_string())?;
+                } else {
+                    let m: AnyMessageLikeEvent = serde_json::from_str(&text).map_err(|e| ctx_err(e, "AnyMessageLikeEvent"))?;
+                    expect_type(m.event_type().to_string())?;
+                }
+            } else {
+                let t: AnySyncTimelineEvent = serde_json::from_str(&text).map_err(|e| ctx_err(e, "AnySyncTimelineEvent"))?;
+                expect_type(t.event_type().to_string())?;
+                if t.sender() != sender || t.event_id() != "$ev1:s.example" || u64::from(t.origin_server_ts().0) != 1_600_000_000_123 {
+                    return Err("AnySyncTimelineEvent accessors differ from the JSON".into());
+                }
+                let red = match &t {
+                    AnySyncTimelineEvent::State(s) => s.is_redacted(),
+                    AnySyncTimelineEvent::MessageLike(m) => m.is_redacted(),
+                };
+                if red != redacted.is_some() {
+                    return Err(format!("sync event: redacted_because present = {}, is_redacted() = {red}", redacted.is_some()));
+                }
+                // into_full_event keeps everything
+                let full = t.into_full_event("!room:s.example".try_into().unwrap());
+                expect_type(full.event_type().to_string())?;
+            }
+            if redacted.is_none() {
+                if kind == Kind::State {
+                    content_fixpoint::<AnyStateEventContent>(&ty, &content, c.salt, cx)?;
+                } else {
+                    content_fixpoint::<AnyMessageLikeEventContent>(&ty, &content, c.salt, cx)?;
+                }
+            }
+        }
+        Kind::Ephemeral => {
+            if c.format == 0 {
+                let e: AnyEphemeralRoomEvent = serde_json::from_str(&text).map_err(|e| ctx_err(e, "AnyEphemeralRoomEvent"))?;
+                expect_type(e.event_type().to_string())?;
+                if e.room_id() != "!room:s.example" {
+                    return Err("ephemeral room_id() differs".into());
+                }
+            } else {
+                let e: AnySyncEphemeralRoomEvent = serde_json::from_str(&text).map_err(|e| ctx_err(e, "AnySyncEphemeralRoomEvent"))?;
+                expect_type(e.event_type().to_string())?;
+            }
+            content_fixpoint::<AnyEphemeralRoomEventContent>(&ty, &content, c.salt, cx)?;
+        }
+        Kind::GlobalAccountData => {
+            let e: AnyGlobalAccountDataEvent = serde_json::from_str(&text).map_err(|e| ctx_err(e, "AnyGlobalAccountDataEvent"))?;
+            expect_type(e.event_type().to_string())?;
+            content_fixpoint::<AnyGlobalAccountDataEventContent>(&ty, &content, c.salt, cx)?;
+        }
+        Kind::RoomAccountData => {
+            let e: AnyRoomAccountDataEvent = serde_json::from_str(&text).map_err(|e| ctx_err(e, "AnyRoomAccountDataEvent"))?;
+            expect_type(e.event_type().to_string())?;
+            content_fixpoint::<AnyRoomAccountDataEventContent>(&ty, &content, c.salt, cx)?;
+        }
+        Kind::ToDevice => {
+            let e: AnyToDeviceEvent = serde_json::from_str(&text).map_err(|e| ctx_err(e, "AnyToDeviceEvent"))?;
+            expect_type(e.event_type().to_string())?;
+            if e.sender() != sender {
+                return Err("to-device sender() differs".into());
+            }
+            content_fixpoint::<AnyToDeviceEventContent>(&ty, &content, c.salt, cx)?;
+        }
+    }
+    let optional_present = c.choices.iter().any(|b| b % 2 == 1);
+    cx.class_if(optional_present, "optional_field_present");
+    cx.nontrivial_if((optional_present && text.contains("org.example.unknown")) || redacted.is_some() || content.get("m.relates_to").is_some());
+    Ok(())
+}
+
+fn main() {
+    let args: Vec<String> = std::env::args().skip(1).collect();
+    let id = args.first().cloned().unwrap_or_default();
+    let mut ck = Check::from_env(&id, &args[1.min(args.len())..]);
+    if id != "C18" {
+        eprintln!("vf-events: unknown property {id}");
+        std::process::exit(2);
+    }
+    ck.rule(
+        "G1: event JSON from hand-written schemas of 50 event types (state, message-like incl. every msgtype with relations / mentions / media info / encrypted files, reaction, redaction, encrypted, sticker, call.*, key.verification.*, receipts/typing, account data incl. the m.secret_storage.key.* wildcard, to-device) plus unknown types; optional fields present/absent, unknown extra fields at several depths, key permutation, full / sync / stripped formats, unsigned (age, transaction_id, prev_content, unknown), and the redacted form of every timeline type produced by the C04 reference redaction for room versions 1-11 with unsigned.redacted_because. \
+         Oracle: deserialisation into the matching Any* enums succeeds; event_type / sender / ids / timestamp / state_key / transaction_id equal the JSON; redacted_because <=> redacted variant; content -> typed -> JSON -> typed -> JSON is a fixpoint without duplicate keys (own duplicate-rejecting reader) that changes no value present in the input and does not depend on key order or unknown fields; Raw returns the text byte for byte and get_field agrees with a full parse. \
+         Non-trivial = optional field present together with an unknown field, or a redacted form, or a relation.",
+    );
+    ck.assume("events are generated only in shapes the client-server specification describes; no compat-* or unstable-* cargo feature is enabled");
+    let table = std::sync::Arc::new(schemas());
+    ck.extra("event_types", json!(table.len()));
+    let n = ck.n(150_000, 6_000_000);
+    let nt = table.len() as u16;
+    let t2 = table.clone();
+    ck.prop(
+        "events",
+        n,
+        move || {
+            (0..nt, prop::option::weighted(0.06, prop_oneof![Just("org.example.custom".to_owned()), Just("m.room.unknown_future".to_owned()), "[a-z]{1,6}\\.[a-z.]{1,8}"]), prop::collection::vec(any::<u8>(), 0..40), 0u8..3, prop::option::weighted(0.25, 1u8..=11), any::<u8>(), any::<u8>())
+                .prop_map(|(schema, unknown_type, choices, format, redacted_version, unsigned_bits, salt)| EvCase { schema, unknown_type, choices, format, redacted_version, unsigned_bits, salt })
+        },
+        move |c, cx| oracle_with(&t2, c, cx),
+    );
+    for cls in ["state", "message_like", "ephemeral", "global_account_data", "room_account_data", "to_device", "unknown_type", "redacted_form", "relation", "optional_field_present", "unknown_fields_present"] {
+        ck.floor("events", cls, 1000);
+    }
+    ck.finish()
+}
